@@ -158,7 +158,7 @@ CLAIMS = {
          '(lazy_static cells: pure constant initialiser), S2 zero unsafe/extern (HIR walk), S3 interprocedural mod/ref summaries show no static is written, '
          'S4 denylist over every external call site (HashMap: keyed access only; time/env/rand/thread-id/atomics/cells/raw memory/ptr-to-int), '
          'S5 transitive field walk: per-instance types own their data; S6 the call graph of the three crates has no cycle, so the stack the calling thread has left cannot decide an outcome; C05.T6 the byte source is consumed only through read_exact into a 1-byte buffer whose byte is always kept, so the result cannot depend on how '
-         'a Read implementation splits the same byte sequence; C15.EK only end of data (io::ErrorKind::UnexpectedEof) ends a picture early - any other transient condition of the source fails the call; C14.H the bits handed out depend on the buffered bytes and the position only. Positive controls on a fixture crate on every run.',
+         'a Read implementation splits the same byte sequence; C15.EK only end of data (io::ErrorKind::UnexpectedEof) ends a picture early - any other transient condition of the source fails the call; C14.H the bits handed out depend on the buffered bytes and the position only. C15.M7 the macroblock loop leaves after exactly mb_per_line * mb_height macroblocks, so a picture is decoded from its own bytes whether or not the next picture is already in the reader. Positive controls on a fixture crate on every run.',
     technique='effect (mod/ref) analysis + denylist lint over type-checked MIR/HIR; type-fact walk; call-graph SCC', ref='6/C17'),
 }
 
